@@ -342,6 +342,7 @@ pub fn run(ctx: &Ctx) {
     }
     run.space(&context("Init.bom", &[b"", b"\xEF", b"\xEF\xBB", b"\xEF\xBB\xBF", b"\xEF\xBB\xBF\xEF\xBB\xBF", b"\xFF", b"\xFE"], b"<?xml >a/", t.pick(5, 6), &[b""], false), &two, false);
 
+    run.space(&decl_case(t.pick(5, 6)), &two, false);
     run.space(&ws_class(), &[NEUTRAL, DEFAULT, 127], false);
     run.space(&mid_bom(t.pick(3, 4)), &[NEUTRAL, DEFAULT, 127, NEUTRAL | TRIM_START | TRIM_END], false);
     // S: size thresholds (names, texts, bodies, runs of delimiter look-alikes, nesting depth, sibling
